@@ -143,6 +143,14 @@ def build_argv(it, tmp):
     order = list(it["order"])
     glob = [glob[i] for i in order if i < len(glob)] + [g for i, g in enumerate(glob) if i not in order]
     argv = [a for g in glob for a in g]
+    if fstate == "twice":
+        # argparse keeps the last occurrence: that one is the requested file, the other must never appear
+        paths = []
+        for i, a in enumerate(argv):
+            name, _, val = a.partition("=")
+            if name in ("-f", "--file", "--fi"):
+                paths.append(val if val else argv[i + 1])
+        info["target"], info["never"] = paths[-1], paths[0]
     if fault == "unknown-option":
         argv.append(["--seed", "--verbose", "-x", "--accounts=1"][fv % 4])
     # sub-command part
